@@ -621,3 +621,56 @@ def load_conflict_instances(draw):
     return {'na': 3, 'n1': n1, 'n2': n2, 'n3': n3, 'prefs': prefs, 'plq': plq, 'puq': puq,
             'plec': plec, 'llq': llq, 'lt': lt, 'luq': luq, 'lprefs': None,
             'cls': 'load_conflict'}
+
+
+COST_LIKE = ('mincost', 'minsqcost', 'mincostlsb', 'minsize', 'gen')
+
+
+def maxsize_first(draw, opts):
+    """In place: when a minimising criterion is requested, put -maxsize at the lowest position
+    (adding it if absent), so that the minimising criterion chooses among non-empty matchings
+    and its arguments matter.  The flag order stays a drawn permutation."""
+    crit = opts['crit']
+    if not any(c[0] in COST_LIKE for c in crit):
+        return opts
+    lo = min(c[1] for c in crit)
+    ms = [c for c in crit if c[0] == 'maxsize']
+    if ms:
+        holder = [c for c in crit if c[1] == lo][0]
+        holder[1], ms[0][1] = ms[0][1], lo
+        return opts
+    used = set(c[1] for c in crit)
+    free_below = [p for p in range(1, lo)]
+    if free_below:
+        pos = draw(st.sampled_from(free_below))
+    else:
+        free = [p for p in range(1, 10) if p not in used]
+        if not free:
+            return opts
+        holder = [c for c in crit if c[1] == lo][0]
+        holder[1] = free[0]
+        pos = lo
+    crit.append(['maxsize', pos, []])
+    opts['order'].insert(uni(draw, 0, len(opts['order'])), 'crit%d' % (len(crit) - 1))
+    return opts
+
+
+@st.composite
+def cost_focus_options(draw, inst, stab=None, pc=None):
+    """-twopl, -maxsize first, then one cost criterion whose optional multipliers are drawn from
+    the shapes that differ only in how an absent or zero multiplier is read: none, one, two;
+    explicit 0 on either side; possibly another criterion behind it."""
+    name = draw(st.sampled_from(['mincost', 'mincost', 'minsqcost', 'mincostlsb']))
+    tail = draw(st.sampled_from([[], [], ['gre'], ['gen'], ['lsb']]))
+    opts = draw(option_sets(inst, min_crit=2 + len(tail), max_crit=2 + len(tail),
+                            names=['maxsize', name] + tail, twopl=True, stab=stab, pc=pc))
+    for c in opts['crit']:
+        if c[0] == name:
+            c[2] = list(draw(st.sampled_from([[], [1], [2], [0], [0, 1], [0, 2], [1, 0], [1, 1],
+                                              [1, 2], [2, 1], [3, 1], [0, 0]])))
+    # positions: maxsize lowest, the cost criterion next, the tail last
+    pos = sorted(c[1] for c in opts['crit'])
+    rank = {'maxsize': 0, name: 1}
+    for c in opts['crit']:
+        c[1] = pos[rank.get(c[0], 2)]
+    return opts
